@@ -178,14 +178,39 @@ def break_reference(decls, rng):
     return d
 
 
+def fixed_definitions():
+    """definitions that are part of every run: the hand-written specifications of C19 (every construct) and shapes that
+    earlier seeded changes needed"""
+    import gen_typed as gt
+    S, M, TG, ST, EN, TS = gt.S, gt.M, gt.TG, gt.ST, gt.EN, gt.TS
+    out = [d for _, d, _ in gt.hand_written()]
+    # a sequence of structs that begin with an enum item / a tagged struct and hold a string further back
+    out.append([{"d": "block", "tag": "IF_DATA", "seq": False, "m": M(TS("", kind="tu", *[
+        TG("S", M(ST("Rec", M(EN("", ("A", None), ("B", 3))), M(S("char"), 8), M(S("uint")))), seq=True),
+        TG("U", M(ST("Rec2", M(TS("", TG("K", M(S("uint"))))), M(S("char"), 4))), block=True, seq=True),
+        TG("T", M(S("uint")))]))}])
+    # one identifier in three name spaces
+    out.append([{"d": "type", "t": ST("Daq", M(S("uint")), M(S("char"), 8))},
+                {"d": "type", "t": EN("Daq", ("P", None), ("Q", 1))},
+                {"d": "type", "t": TS("Daq", TG("X", M(ST("Daq", ref=True))), TG("Y", M(EN("Daq", ref=True)), repeat=True))},
+                {"d": "type", "t": TS("Daq", TG("V", M(S("long"))), kind="tu")},
+                {"d": "block", "tag": "IF_DATA", "seq": False, "m": M(ST("", M(ST("Daq", ref=True)), M(EN("Daq", ref=True)), M(TS("Daq", ref=True)), M(TS("Daq", kind="tu", ref=True))))}])
+    for d in out:
+        ok, t = ag.resolve(d)
+        if not ok or not ag.unambiguous(t):
+            vlib.tool_error("a fixed definition is not well-formed / unambiguous")
+    return out
+
+
 def build_plan(tier, rng):
     plan = Plan()
     ndefs = 60 if tier == "quick" else 10000
     gen = ag.DefGen(rng)
     prev = None
+    fixed = fixed_definitions()
     for di in range(ndefs):
         gen.max_depth = rng.choice([1, 2, 3, 4])
-        decls = gen.definition()
+        decls = fixed[di] if di < len(fixed) else gen.definition()
         ok, ty = ag.resolve(decls)
         plan.types.append((decls, True, f"def{di}"))
         bad = break_reference(decls, rng)
